@@ -39,6 +39,9 @@ pub struct Job {
     /// compile to an object and link+run it when no error was reported
     #[serde(default)]
     pub run: bool,
+    /// link the object (without running it) when no error was reported
+    #[serde(default)]
+    pub link: bool,
     #[serde(default)]
     pub args: Vec<String>,
     #[serde(default = "default_timeout")]
@@ -137,6 +140,29 @@ pub fn install_panic_hook() {
             .location()
             .map(|l| format!("{}:{}", l.file(), l.line()))
             .unwrap_or_default();
+        // the innermost function of the code under test on the stack: a call-site identity that
+        // survives line shifts
+        let bt = std::backtrace::Backtrace::force_capture().to_string();
+        let mut func = String::new();
+        const CRATES: [&str; 15] = [
+            "hir_ty::", "hir::", "codegen::", "parser::", "lexer::", "ast::", "diagnostics::",
+            "topo::", "token::", "line_index::", "syntax::", "interner::", "uid_gen::",
+            "cranelift", "eventree::",
+        ];
+        for line in bt.lines() {
+            let t = line.trim();
+            // frame lines look like "12: hir_ty::globals::GlobalInferenceCtx::infer_expr"
+            if let Some((_, name)) = t.split_once(": ") {
+                let name = name.trim_start_matches('<');
+                if CRATES.iter().any(|c| name.starts_with(c)) && !name.contains("capy_verif") {
+                    func = name.split("::h").next().unwrap_or(name).to_string();
+                    // drop closure / generic noise
+                    func = func.replace("::{{closure}}", "");
+                    break;
+                }
+            }
+        }
+        let loc = if func.is_empty() { loc } else { format!("{} in {}", loc, func) };
         LAST_PANIC.with(|p| *p.borrow_mut() = Some((msg, loc)));
     }));
 }
@@ -522,7 +548,7 @@ pub fn run_job(job: &Job, progress_path: &Path) -> JobResult {
     res.obj_len = bytes.len();
     res.obj_sha = format!("{:x}", Sha256::digest(&bytes));
 
-    if job.run {
+    if job.run || job.link {
         let out_dir = cwd.join("out");
         let _ = fs::create_dir(&out_dir);
         let obj = out_dir.join("prog.o");
@@ -533,7 +559,9 @@ pub fn run_job(job: &Job, progress_path: &Path) -> JobResult {
         match linked {
             Some(Ok(exe)) => {
                 res.link = "ok".into();
-                res.run = Some(run_exe(&exe, &job.args, job.timeout_ms));
+                if job.run {
+                    res.run = Some(run_exe(&exe, &job.args, job.timeout_ms));
+                }
             }
             Some(Err(e)) => {
                 res.link = format!("{:?}", e);
